@@ -47,7 +47,7 @@ class C18(Check):
                    'running: struct/member agreement is read under the module\'s access lock)',
                    'closest allowed value: ties may go either way']
     PROBES = ('c18.struct-op', 'c18.floatenum-op', 'c18.limit-op', 'c18.inverted-limits', 'c18.control-op',
-              'c18.driver-op', 'c18.wire-op', 'c18.takeover', 'c18.concurrent-driver-assignment', 'fault.hw-read', 'fault.hw-write', 'c18.stale-controller-output', 'c18.second-output-op', 'c18.concurrent-takeover')
+              'c18.driver-op', 'c18.wire-op', 'c18.takeover', 'c18.concurrent-driver-assignment', 'fault.hw-read', 'fault.hw-write', 'c18.stale-controller-output', 'c18.second-output-op', 'c18.concurrent-takeover', 'fault.hw-switch-off')
 
     def gen_case(self, rng, tier):
         members = rng.sample(['a', 'b', 'c'], rng.choice([2, 3]))
@@ -86,6 +86,8 @@ class C18(Check):
                 op = {'group': 'control', 'kind': rng.choice(['ctl', 'ctl', 'out', 'stale', 'ctlb', 'outb', 'ctlpair']),
                       'c': rng.randrange(shape['nctl']),
                       'v': round(rng.random() * 100, 1)}
+                if op['kind'] in ('ctl', 'out') and rng.random() < 0.2:
+                    op['switch_fail'] = True     # switching off the controller that loses the control fails once
                 if op['kind'] == 'ctlpair':
                     # two clients hand the control to two different controllers at the same moment
                     op['c2'] = (op['c'] + 1 + rng.randrange(max(1, shape['nctl'] - 1))) % shape['nctl']
@@ -203,9 +205,13 @@ class C18(Check):
                 return value
 
             def set_control_active(self, active):
-                # the hook for switching the control loop of the hardware: that takes a moment
+                # the hook for switching the control loop of the hardware: that takes a moment - and may fail
                 if shape.get('switch_time'):
                     time.sleep(shape['switch_time'])
+                if not active and hw.get('switch_fail'):
+                    hw['switch_fail'] = None
+                    sim.count('fault.hw-switch-off')
+                    raise HardwareError(f'{self.name}: no reply when switching off the loop')
                 super().set_control_active(active)
         ctx['cleanup'] = [lambda: env.forget_classes(LMod, Out, Ctl)]
         cfg = {'m': {'cls': LMod, 'description': 'linked parameters', 'pollinterval': 0.5, 'slowinterval': 0.5},
@@ -345,6 +351,8 @@ class C18(Check):
                                 getattr(mod, f'write_x_{which}')(op['lo'])
                 else:
                     sim.count('c18.control-op')
+                    if op.get('switch_fail'):
+                        hw['switch_fail'] = True
                     if k in ('ctlb', 'outb'):
                         sim.count('c18.second-output-op')
                         if ctlb is None:
@@ -395,6 +403,7 @@ class C18(Check):
                 side.join()
             time.sleep(0.05)
             hw['fail'] = None
+            hw['switch_fail'] = None
             steps.append({'op': op, 'before': before, 'after': snapshot(), 'reply': reply, 'exc': exc,
                           'also_done': side is not None, 'hw_st': hw_before,
                           'xlog': list(hw.get('xlog', ()))})
